@@ -345,6 +345,16 @@ impl FixtureDatabase {
             Expr::Await(await_expr) => {
                 self.visit_expr_for_names(&await_expr.value, ctx);
             }
+            Expr::BoolOp(boolop) => {
+                for value in &boolop.values {
+                    self.visit_expr_for_names(value, ctx);
+                }
+            }
+            Expr::Set(set) => {
+                for elt in &set.elts {
+                    self.visit_expr_for_names(elt, ctx);
+                }
+            }
             _ => {}
         }
     }
